@@ -197,6 +197,10 @@ return:表项地址，若缓冲区已经读取完毕返回NULL
 u8_t *buffergroup::require_buffer_entry(const u8_t id)
 {
   WV_EVENT(WVE_WORKER_ENTER, NULL, id, 0);
+  // the worker may look at its buffer only after the I/O thread has published it
+  ctrl[id].wait_ready();
+  if (!ctrl[id].cmpstate(READY))
+    return NULL;
   WV_POINT(WVP_GET_ENTRY, &buflst[id]);
   u8_t *result = buflst[id].get_entry();
   WV_EVENT(WVE_TAKE, result, id, 0);
